@@ -545,7 +545,8 @@ def gen_logs(rng, n, tids=None, with_tai=False):
                                 ar['or'] = rng.randrange(0, 1 << 40)
                         seg['a'] = ar
                     segs.append(seg)
-                ev['dm'] = {'pc': len(segs), 's': rng.randrange(4), 'seg': segs}
+                # (a message may end in literal text after its last placeholder: one more segment than placeholders)
+                ev['dm'] = {'pc': max(1, len(segs) - 1) if rng.chance(0.3) else len(segs), 's': rng.randrange(4), 'seg': segs}
         if rng.chance(0.25):
             ns = rng.pick([2, 3, 4, 5])
             ty = {2: [1, 2, 3], 3: [0, 1, 2, 0x10, 0x11], 4: [0, 1, 2, 0x10, 0x11], 5: [1, 2, 3, 4]}[ns]
@@ -774,6 +775,8 @@ def _gen_block(rng, kind):
             t[4:8] = rng.pick([b'\x00\x00\x00\x00', b'\x01\x00\x00\x00', b'\x02\x00\x00\x00', b'\x00\x00\x00\x80', rng.randbytes(4)])
         else:
             t[0:4] = rng.pick([b'\x02\x80\x00\x00', b'\x13\x80\x00\x00', b'\x04\x80\x01\x00', rng.randbytes(4)])
+        if rng.chance(0.15):
+            t = bytearray(8)           # the all-zero tag: a tag like any other that no section uses
         if bytes(t) not in known and bytes(t) not in (writer.TAG_THREADMAP, writer.TAG_EVENTS, writer.TAG_MORE):
             blk['tag'] = bytes(t).hex()
     return blk
